@@ -430,6 +430,106 @@ pub fn tamper(w: &mut World, actor: &str, tx: &Transaction, i: usize, wit: &[Vec
             }
         }
     }
+    // byte-level edits of single elements: signature length / sighash byte, and other spellings of
+    // the same script (the chain commits to the script bytes, not to their meaning)
+    if !items.is_empty() {
+        let rebuild = |it: Vec<Vec<u8>>| -> (Vec<Vec<u8>>, bitcoin::ScriptBuf) {
+            if legacy {
+                let mut b = vec![];
+                for x in &it {
+                    crate::vm::push_data(&mut b, x);
+                }
+                (vec![], bitcoin::ScriptBuf::from_bytes(b))
+            } else {
+                (it, ss.clone())
+            }
+        };
+        for k in 0..items.len() {
+            let e = &items[k];
+            let mut alts: Vec<Vec<u8>> = vec![];
+            if e.len() == 64 {
+                for b in [0x00u8, 0x01, 0x81] {
+                    let mut v = e.clone();
+                    v.push(b);
+                    alts.push(v);
+                }
+            }
+            if e.len() == 65 || (e.len() >= 70 && e.len() <= 73 && e[0] == 0x30) {
+                let mut v = e.clone();
+                v.pop();
+                alts.push(v.clone());
+                for b in [0x00u8, 0x02, 0x04, 0x80, 0x81] {
+                    let mut u = v.clone();
+                    u.push(b);
+                    alts.push(u);
+                }
+            }
+            for a in alts.into_iter().take(4) {
+                let mut it = items.clone();
+                it[k] = a;
+                cands.push(rebuild(it));
+            }
+        }
+        // the script element: last item (wsh, sh), or the one before a control block
+        let n = items.len();
+        let sk = if n >= 2 && items[n - 1].len() >= 33 && (items[n - 1].len() - 33) % 32 == 0 && items[n - 1][0] & 0xfe == 0xc0 { n - 2 } else { n - 1 };
+        if matches!(kind, OutKind::Wsh | OutKind::ShWsh | OutKind::ShMs | OutKind::TrScript) {
+            let script = items[sk].clone();
+            // walk the instructions
+            let mut pos = vec![];
+            let mut j = 0;
+            while j < script.len() {
+                let op = script[j];
+                let len = match op {
+                    0x01..=0x4b => 1 + op as usize,
+                    0x4c if j + 1 < script.len() => 2 + script[j + 1] as usize,
+                    0x4d if j + 2 < script.len() => 3 + u16::from_le_bytes([script[j + 1], script[j + 2]]) as usize,
+                    _ => 1,
+                };
+                pos.push((j, len));
+                j += len;
+            }
+            let mut spellings: Vec<Vec<u8>> = vec![];
+            for (o, l) in &pos {
+                let op = script[*o];
+                let two = match op {
+                    0x88 => Some([0x87u8, 0x69]),
+                    0x9d => Some([0x9c, 0x69]),
+                    0xad => Some([0xac, 0x69]),
+                    0xaf => Some([0xae, 0x69]),
+                    _ => None,
+                };
+                if let Some(t) = two {
+                    let mut v = script[..*o].to_vec();
+                    v.extend_from_slice(&t);
+                    v.extend_from_slice(&script[o + l..]);
+                    spellings.push(v);
+                }
+                if (0x51..=0x60).contains(&op) {
+                    // OP_n as a one-byte push
+                    let mut v = script[..*o].to_vec();
+                    v.extend_from_slice(&[0x01, op - 0x50]);
+                    v.extend_from_slice(&script[o + l..]);
+                    spellings.push(v);
+                }
+                if (0x01..=0x4b).contains(&op) && *l == 1 + op as usize {
+                    // direct push as PUSHDATA1
+                    let mut v = script[..*o].to_vec();
+                    v.push(0x4c);
+                    v.push(op);
+                    v.extend_from_slice(&script[o + 1..]);
+                    spellings.push(v);
+                }
+            }
+            // one of each kind is enough per attempt: pick up to 6, spread over the script
+            let step = (spellings.len() / 6).max(1);
+            for sp in spellings.into_iter().step_by(step).take(6) {
+                let mut it = items.clone();
+                it[sk] = sp;
+                cands.push(rebuild(it));
+            }
+        }
+    }
     // scriptSig mutations for segwit spends (native: must stay empty; nested: exactly one push)
     if !legacy {
         let pushes = crate::vm::parse_pushes(ss.as_bytes()).unwrap_or_default();
